@@ -83,6 +83,7 @@ def run(chk):
     cfg_lines = []
     for _ in range(dict(quick=25, thorough=400)[chk.tier]):
         y, toks = c14.gen_cfg(rng)
+        toks = toks[toks.index('cfg'):]     # C01 compares outcome and columns, not the text forms (C13 / C14 do)
         for h in rng.sample(allh, 6):
             cfg_lines.append('pipec flow yaml:%s %s %s' % (y.encode().hex(), ' '.join(toks), h))
     map_lines = ['pipe flow mapping ' + h for h in rng.sample(allh, min(len(allh), dict(quick=150, thorough=2000)[chk.tier]))]
@@ -132,4 +133,16 @@ def run(chk):
     icut = impl_run(chk.harness, cuts, timeout=60.0)
     judge(cuts, icut, 'ParsePacket on model frames at every capture length')
     chk.exhaustive.append('every capture length of %d model frames: %d parses' % (dict(quick=60, thorough=1500)[chk.tier], len(cuts)))
+    # hostile values in the length / type fields of the dissected headers: every byte of the first 96 bytes of model frames
+    # (IP-in-IP, GRE, SRv6, MPLS, fragments ... included) replaced by 0x00, 0x40, 0x4f, 0xff -- header lengths of 0
+    # (IHL, TCP data offset, extension header length), maximal lengths, other versions, other next protocols
+    hf = []
+    for a, _ in model_gen('C10', 0, chk.seed + 23, 0, dict(quick=50, thorough=600)[chk.tier]):
+        _, d = payload_of(a)
+        for pos in range(min(len(d), 96)):
+            for v in (0x00, 0x40, 0x4f, 0xff):
+                if d[pos] != v:
+                    hf.append('pkt =' + (d[:pos] + bytes([v]) + d[pos + 1:]).hex())
+    ihf = impl_run(chk.harness, hf, timeout=60.0)
+    judge(hf, ihf, 'ParsePacket on model frames with one header byte replaced')
     return chk.finish(me)
